@@ -14,7 +14,7 @@ use crate::{
 };
 
 /// Mutation classes = slots of the outcome matrix of the seeded reader families.
-pub const CLASSES: [&str; 41] = [
+pub const CLASSES: [&str; 44] = [
     "field:zero",
     "field:one",
     "field:umax(-1)",
@@ -56,6 +56,9 @@ pub const CLASSES: [&str; 41] = [
     "stacked(2-3 mutations)",
     "truncate+garbage",
     "record:long-run-inserted(length-fixed)",
+    "last-record:field(+1,-1,x2)",
+    "text:last-line-number(+1,-1,x2)",
+    "cram:last-container(+1,-1,x2)",
 ];
 
 fn class_index(name: &str) -> usize {
@@ -163,6 +166,25 @@ fn binary_once(rng: &mut Rng, b: &mut Vec<u8>, l: &Layout) -> (&'static str, Str
             b.splice(at..at, std::iter::repeat_n(byte, n));
             return ("record:long-run-inserted(length-fixed)", format!("{n} x {byte:#04x} inserted at {at}, length prefix @{which} {cur} -> {}", cur + n as u64));
         }
+    }
+    if nf > 0 && rng.chance(1, 6) {
+        // count +1 / -1, length +1 / -1, x2 on a field of the LAST record (nothing behind it absorbs the error)
+        let last_start = l.records.last().map(|r| r.0).unwrap_or(0);
+        let mut cands: Vec<_> = l.fields.iter().filter(|f| f.off >= last_start).collect();
+        if cands.is_empty() {
+            cands = l.fields.iter().rev().take(3).collect();
+        }
+        let f = **rng.pick(&cands);
+        let cur = read_le(b, f.off, f.width);
+        let bits = 8 * f.width as u32;
+        let umax = if bits >= 64 { u64::MAX } else { (1u64 << bits) - 1 };
+        let v = match rng.below(3) {
+            0 => cur.wrapping_add(1),
+            1 => cur.wrapping_sub(1),
+            _ => cur.wrapping_mul(2),
+        } & umax;
+        write_le(b, f.off, f.width, v);
+        return ("last-record:field(+1,-1,x2)", format!("{}@{} {cur:#x} -> {v:#x} (last record starts at {last_start})", f.name, f.off));
     }
     if nf > 0 && pick < 62 {
         let f = l.fields[rng.usize_below(nf)];
@@ -278,6 +300,26 @@ fn text_once(rng: &mut Rng, b: &mut Vec<u8>) -> (&'static str, String) {
     if l.records.is_empty() {
         let c = burst(rng, b);
         return (c, "burst on empty text".into());
+    }
+    if rng.chance(1, 8) {
+        // a number of the LAST line +1 / -1 / x2
+        let (ls, le) = *l.records.last().unwrap();
+        let line = b[ls..le].to_vec();
+        let nums: Vec<(usize, usize)> = tokens(&line).into_iter().filter(|&(s, e)| e - s <= 18 && line[s..e].iter().all(|c| c.is_ascii_digit())).collect();
+        if !nums.is_empty() {
+            let (s, e) = *rng.pick(&nums);
+            let cur: u64 = std::str::from_utf8(&line[s..e]).ok().and_then(|t| t.parse().ok()).unwrap_or(0);
+            let v = match rng.below(3) {
+                0 => cur + 1,
+                1 => cur.saturating_sub(1),
+                _ => cur * 2,
+            };
+            let mut nl = line[..s].to_vec();
+            nl.extend_from_slice(v.to_string().as_bytes());
+            nl.extend_from_slice(&line[e..]);
+            b.splice(ls..le, nl);
+            return ("text:last-line-number(+1,-1,x2)", format!("last line: {cur} -> {v}"));
+        }
     }
     let pick = rng.below(100);
     // bias towards the first record lines and the last header lines: pick either uniformly or near the header end
@@ -399,6 +441,83 @@ fn cram_once(rng: &mut Rng, c: &mut Cram) -> (&'static str, String) {
         return ("cram:container-field", "no containers".into());
     }
     let nc = c.containers.len();
+    if nc > 2 && rng.chance(1, 8) {
+        // +1 / -1 / x2 on a count or length of the LAST data container (the one in front of the EOF container)
+        let ct = &mut c.containers[nc - 2];
+        let step = |rng: &mut Rng, cur: i32| -> i32 {
+            match rng.below(3) {
+                0 => cur.wrapping_add(1),
+                1 => cur.wrapping_sub(1),
+                _ => cur.wrapping_mul(2),
+            }
+        };
+        let nb = ct.blocks.len();
+        let desc = match rng.below(6) {
+            0 => {
+                let v = step(rng, ct.n_records);
+                let d = format!("last data container n_records {} -> {v}", ct.n_records);
+                ct.n_records = v;
+                d
+            }
+            1 => {
+                let v = step(rng, ct.n_blocks);
+                let d = format!("last data container n_blocks {} -> {v}", ct.n_blocks);
+                ct.n_blocks = v;
+                d
+            }
+            2 => {
+                let v = step(rng, ct.span);
+                let d = format!("last data container span {} -> {v}", ct.span);
+                ct.span = v;
+                d
+            }
+            3 if nb > 0 => {
+                let bl = &mut ct.blocks[nb - 1];
+                let v = step(rng, bl.raw_size);
+                let d = format!("last block raw size {} -> {v}", bl.raw_size);
+                bl.raw_size = v;
+                d
+            }
+            4 if nb > 0 => {
+                let bl = &mut ct.blocks[nb - 1];
+                let v = step(rng, bl.data.len() as i32);
+                let d = format!("last block stored size {} -> {v}", bl.data.len());
+                bl.size_override = Some(v);
+                d
+            }
+            _ if nb > 0 => {
+                // an ITF8 of the last slice header (or of the compression header when there is no landmark)
+                let bi = ct.landmark_blocks.last().copied().unwrap_or(0).min(nb - 1);
+                let bl = &mut ct.blocks[bi];
+                let mut offs = vec![];
+                let mut p = 0;
+                while p < bl.data.len() && offs.len() < 4000 {
+                    offs.push(p);
+                    match cramfmt::read_itf8(&bl.data, p) {
+                        Some((_, n)) => p += n,
+                        None => break,
+                    }
+                }
+                if offs.is_empty() {
+                    "empty header block".to_string()
+                } else {
+                    let at = *rng.pick(&offs);
+                    let (cur, n) = cramfmt::read_itf8(&bl.data, at).unwrap_or((0, 1));
+                    let v = step(rng, cur);
+                    let mut enc = Vec::new();
+                    cramfmt::write_itf8(&mut enc, v);
+                    let e = (at + n).min(bl.data.len());
+                    bl.data.splice(at..e, enc);
+                    if bl.method == 0 {
+                        bl.raw_size = bl.data.len() as i32;
+                    }
+                    format!("block {bi} (type {}) ITF8 at {at}: {cur} -> {v}", bl.ctype)
+                }
+            }
+            _ => "container without blocks".to_string(),
+        };
+        return ("cram:last-container(+1,-1,x2)", desc);
+    }
     // data containers are more interesting than the header / EOF container
     let ci = if nc > 2 && rng.chance(3, 4) { 1 + rng.usize_below(nc - 2) } else { rng.usize_below(nc) };
     let pick = rng.below(100);
